@@ -146,6 +146,18 @@ def install_api(I):
         interp.call(interp.getattr(op, "_init_op"), [[], [den_], [type]], {})
         return interp.getitem(interp.getattr(op, "results"), 0)
 
+    def mk_ident_value(interp, tag, type=None):
+        """an SSA value whose IDENTITY is the (symbolic) integer `tag`: `==`, `is` and `in` on two such values mean
+        tag equality - models 'these two operands may or may not be the same SSA value'"""
+        cls = interp.load_module("xdsl.ir").globals["SSAValue"]
+        v = interp.call(cls, [None, type], {})
+        v.tag = tag
+        return v
+
+    def set_identity(interp, obj, tag):
+        obj.tag = tag
+        return obj
+
     def rt_shape(interp, m, d):
         return interp.getitem(interp.getattr(m, "rt_shape"), d)
 
@@ -168,6 +180,7 @@ def install_api(I):
         fresh_int=NativeFn(fresh_int, "fresh_int"),
         unreachable=NativeFn(unreachable, "unreachable"),
         uf=NativeFn(uf, "uf"),
+        mk_ident_value=NativeFn(mk_ident_value, "mk_ident_value"), set_identity=NativeFn(set_identity, "set_identity"),
         mk_opresult=NativeFn(mk_opresult, "mk_opresult"),
         bv_const=NativeFn(bv_const, "bv_const"), bv_shl=NativeFn(bv_shl, "bv_shl"), bv_lshr=NativeFn(bv_lshr, "bv_lshr"),
         bv_or=NativeFn(bv_or, "bv_or"), bv_and=NativeFn(bv_and, "bv_and"), bv_eq=NativeFn(bv_eq, "bv_eq"),
